@@ -81,6 +81,112 @@ def run(run):
     _pubkey(run, PV, D)
     _dongle_pubkey(run, F, PV)
     _ui_restores(run, F, PV, V2)
+    reply_assembly(run)
+
+
+def reply_assembly(run, rid="R8"):
+    """How the command's (code, data) pair becomes the JSON reply (shared with C04 under a prefix)."""
+    P, A = run.P, run.A
+    from sa.decide import Walker, cmp_parts, completions, subst
+    run.rule(rid, "Reply assembly in HSM2Protocol.__internal_handle_request, from the command's result pair (code, data) on: code < 0 -> the reply is "
+             "{errorcode: code}; otherwise the reply is the data object itself with errorcode = code stored into it - one code, taken from element 0, and every "
+             "field the command produced (element 1), nothing dropped or added; the validation result likewise: negative -> {errorcode: that result}.")
+    HP = P.cls("comm.protocol.HSM2Protocol")
+    ih = next((m for n, m in HP.methods.items() if n.endswith("__internal_handle_request")), None)
+    run.require(ih is not None, "HSM2Protocol.__internal_handle_request vanished")
+    g = A.cfg(ih, HP)
+    ops = [n for n in A.own_nodes(ih) if isinstance(n, ast.Call) and isinstance(n.func, ast.Subscript) and _strip(norm(n.func.value)) == "self._mappings"]
+    run.require(len(ops) == 1, "__internal_handle_request: the operation call self._mappings[command](request) was not identified")
+    opn = g.nodes_of(ops[0])
+    run.require(len(opn) == 1, "__internal_handle_request: operation call node not unique")
+    state = {"W": None}
+
+    def resolve(e):
+        b = state["W"]._bind or {}
+        for _ in range(6):
+            names = {n.id for n in ast.walk(e) if isinstance(n, ast.Name)}
+            hit = {k: v for k, v in b.items() if k in names}
+            if not hit:
+                break
+            e = subst(e, hit)
+        return e
+    OP = _strip(norm(ops[0]))
+
+    def atom(e):
+        cp = cmp_parts(e)
+        if cp is None:
+            return None
+        l, op, r = cp
+        if _strip(norm(resolve(l))) == f"{OP}[0]" and isinstance(r, ast.Constant) and isinstance(r.value, int):
+            tab = {("<", 0): True, ("<=", -1): True, (">=", 0): False, (">", -1): False}
+            if (op, r.value) in tab:
+                return ("NEG", tab[(op, r.value)])
+        return None
+    W = Walker(A, ih, HP, atom, max_leaves=64)
+    state["W"] = W
+    n = 0
+    for lf in W.walk(opn[0]):
+        where = ih.loc(lf.node.ast) if lf.node.ast is not None else ih.loc()
+        unknown = sorted(k[1:] for k in lf.pc if isinstance(k, str) and k.startswith("?"))
+        run.check(rid, not unknown, "after the operation only the sign of its code decides", key=f"__internal_handle_request|reply|extra|{';'.join(unknown)[:50]}", where=where,
+                  message=f"after the command ran, the reply also depends on `{'`, `'.join(unknown)[:100]}`")
+        if unknown or lf.kind != "return" or lf.node.ast.value is None:
+            run.check(rid, bool(unknown) or lf.kind == "return", "every path after the operation returns a reply", key=f"__internal_handle_request|reply|{lf.kind}", where=where,
+                      message=f"after the command ran a path ends in `{lf.kind}` instead of returning the reply")
+            continue
+        state["W"]._bind = lf.bind
+        v = lf.deep(lf.node.ast.value)
+        vt = _strip(norm(v))
+        stores = [(_strip(norm(resolve(subst(st_.targets[0], lf.env)))), _strip(norm(resolve(v_)))) for k_, st_, v_ in lf.effects
+                  if k_ == "assign" and isinstance(st_.targets[0], ast.Subscript)]
+        for val in completions({k: b for k, b in lf.pc.items() if k == "NEG"}, ["NEG"]):
+            n += 1
+            if val["NEG"]:
+                ok = vt == f"{{self.ERROR_CODE_KEY: {OP}[0]}}" and not stores
+                w = "{errorcode: code}"
+            else:
+                ok = vt == f"{OP}[1]" and stores == [(f"{OP}[1][self.ERROR_CODE_KEY]", f"{OP}[0]")]
+                w = "data with data[errorcode] = code"
+            run.check(rid, ok and "NEG" in lf.pc, f"[code {'<' if val['NEG'] else '>='} 0] -> {w}", key=f"__internal_handle_request|reply|{val['NEG']}", where=where,
+                      message=f"reply assembly, case code {'<' if val['NEG'] else '>='} 0: returns `{vt[:80]}` after storing {stores[:2]}; expected {w} (code = element 0, data = "
+                              "element 1 of the command's result): fields or the result code the command produced would not reach the client")
+    run.floor(rid, "reply assembly cases", n, 2)
+    # the validation verdict
+    vals = [n_ for n_ in A.own_nodes(ih) if isinstance(n_, ast.Call) and isinstance(n_.func, ast.Subscript) and _strip(norm(n_.func.value)) == "self._validation_mappings"]
+    run.require(len(vals) == 1, "__internal_handle_request: the validation call was not identified")
+    VT = _strip(norm(vals[0]))
+
+    def vatom(e):
+        cp = cmp_parts(e)
+        if cp is None:
+            return None
+        l, op, r = cp
+        if _strip(norm(resolve(l))) == VT and isinstance(r, ast.Constant) and isinstance(r.value, int):
+            tab = {("<", 0): True, ("<=", -1): True, (">=", 0): False, (">", -1): False}
+            if (op, r.value) in tab:
+                return ("VNEG", tab[(op, r.value)])
+        return None
+    W2 = Walker(A, ih, HP, vatom, max_leaves=64)
+    state["W"] = W2
+    nv = 0
+    for vn in g.nodes_of(vals[0]):
+        for lf in W2.walk(vn, stops=set(opn)):
+            where = ih.loc(lf.node.ast) if lf.node.ast is not None else ih.loc()
+            state["W"]._bind = lf.bind
+            for val in completions({k: b for k, b in lf.pc.items() if k == "VNEG"}, ["VNEG"]):
+                nv += 1
+                if val["VNEG"]:
+                    vt = _strip(norm(lf.deep(lf.node.ast.value))) if lf.kind == "return" and lf.node.ast.value is not None else lf.kind
+                    ok = vt == f"{{self.ERROR_CODE_KEY: {VT}}}"
+                    w = "{errorcode: validation result}"
+                else:
+                    vt = "the operation runs" if lf.kind == "stop" else lf.kind
+                    ok = lf.kind == "stop"
+                    w = "the operation runs"
+                unknown = sorted(k[1:] for k in lf.pc if isinstance(k, str) and k.startswith("?"))
+                run.check(rid, ok and not unknown and "VNEG" in lf.pc, f"[validation {'<' if val['VNEG'] else '>='} 0] -> {w}", key=f"__internal_handle_request|validation|{val['VNEG']}", where=where,
+                          message=f"validation verdict {'<' if val['VNEG'] else '>='} 0: the code does `{vt[:80]}`" + (f" and decides on {unknown}" if unknown else "") + f"; expected {w}")
+    run.floor(rid, "validation verdict cases", nv, 2)
 
 
 def _tables(run, fw, D, spec):
